@@ -197,6 +197,15 @@ def run(prog: Program, col: Collector, tier: str, refs: Optional[Refs] = None, c
                     col.ok(construct, allow.TERM_ATTR_STORES[key], s.loc)
                 else:
                     col.unresolved(construct, "setattr with a computed attribute name", s.loc)
+            elif attr in ("shape", "strides", "dtype") and not (f.name in ("__init__", "__new__")):
+                # assigning an array's metadata re-shapes / re-types the very buffer in place (x.shape += (1,)): a write like any other
+                vs = [judge.origin_verdict(f, o, "augassign-name") for o in s.origins]
+                arr_viol = [v for v in vs if v[0] == "viol" and v[2]]
+                if arr_viol:
+                    col.violation(construct, f"`{norm(s.stmt)}` changes the .{attr} of an array in place, and the array is not the function's own: {arr_viol[0][1]} "
+                                  "(the caller's array / the array inside a term is re-shaped under its owner)", s.loc)
+                else:
+                    col.ok(construct, f"`.{attr}` assigned on an object that is not a borrowed array", s.loc, nontrivial=False)
             else:
                 col.ok(construct, f"`.{attr}` is not a constructor field of any term", s.loc, nontrivial=False)
             continue
